@@ -24,7 +24,7 @@ RULE = (
     "pair; distinct = (operation, parameters, input hash, seed); non-trivial = the operation returned in both runs"
 )
 ASSUMPTIONS = ["thorough tier repeats the CLI steps as real subprocesses under two PYTHONHASHSEED values", "line-granular injection uses sys.monitoring LINE events on code objects whose file lies under the tree under test"]
-REQUIRED = {"pairs_with_positional_arguments": {"quick": 10, "thorough": 200}, "dbal_kernel_pairs_on_the_callers_arrays": {"quick": 100, "thorough": 1000}, "pairs_compared": {"quick": 400, "thorough": 8000}, "global_state_checks": {"quick": 400, "thorough": 8000}, "injected_global_draws": {"quick": 2000, "thorough": 50000}, "training_pairs": {"quick": 16, "thorough": 300}, "training_pairs_same_model": {"quick": 16, "thorough": 300}, "training_with_non_default_switches": {"quick": 6, "thorough": 100}, "vi_training_pairs": {"quick": 40, "thorough": 600}, "reused_scorer_pairs": {"quick": 30, "thorough": 600}, "dbal_pairs_many_samples": {"quick": 12, "thorough": 48}, "second_runs_on_an_object_with_a_past": {"quick": 60, "thorough": 1200}, "grid_model_training_pairs": {"quick": 2, "thorough": 16}, "cli_pairs": {"quick": 24, "thorough": 400}, "cli_subprocess_pairs": {"quick": 2, "thorough": 16}}
+REQUIRED = {"training_pairs_user_subclass": {"quick": 8, "thorough": 150}, "pairs_with_positional_arguments": {"quick": 10, "thorough": 200}, "dbal_kernel_pairs_on_the_callers_arrays": {"quick": 100, "thorough": 1000}, "pairs_compared": {"quick": 400, "thorough": 8000}, "global_state_checks": {"quick": 400, "thorough": 8000}, "injected_global_draws": {"quick": 2000, "thorough": 50000}, "training_pairs": {"quick": 16, "thorough": 300}, "training_pairs_same_model": {"quick": 16, "thorough": 300}, "training_with_non_default_switches": {"quick": 6, "thorough": 100}, "vi_training_pairs": {"quick": 40, "thorough": 600}, "reused_scorer_pairs": {"quick": 30, "thorough": 600}, "dbal_pairs_many_samples": {"quick": 12, "thorough": 48}, "second_runs_on_an_object_with_a_past": {"quick": 60, "thorough": 1200}, "grid_model_training_pairs": {"quick": 2, "thorough": 16}, "cli_pairs": {"quick": 24, "thorough": 400}, "cli_subprocess_pairs": {"quick": 2, "thorough": 16}}
 N_OPS = {"quick": 640, "thorough": 12800}
 TOOL = 4
 
@@ -340,6 +340,22 @@ def run_shard(rec, tier, seed, shard, nshards):
 
             def train_again(m=shared, sd=sd, nch=nch, ch=ch, nb=nb):
                 return sampling.sample(m, ThetaHolder(n_thetas=3), seed=sd, n_chains=nch, chain_index=ch, n_burnin=nb, thin=2)
+
+            # a user's model derived from the shipped one whose extra move draws through the model's documented
+            # `rng` property (the generator the framework handed over with set_rng)
+            def step_with_jitter(self, _base=cls):
+                _base.step(self)
+                self.wrapped_model.W0 = self.wrapped_model.W0 + np.float32(1e-3) * self.rng.normal(size=np.shape(self.wrapped_model.W0)).astype(np.float32)
+
+            jittered = type("Jittered" + mname, (cls,), {"step": step_with_jitter})
+
+            def train_sub(cls=jittered, screen=screen, sd=sd, nch=nch, ch=ch, D_=D_, mkw=mkw):
+                m = cls(experiment_space=ExperimentSpace.from_screen(screen), n_embedding_dimensions=D_, **mkw)
+                m.add_observations(screen.subset_observed())
+                return sampling.sample(m, ThetaHolder(n_thetas=2), seed=sd, n_chains=nch, chain_index=ch, n_burnin=1, thin=1)
+
+            if hasattr(cls(experiment_space=ExperimentSpace.from_screen(screen), n_embedding_dimensions=1).wrapped_model, "W0"):
+                pair(rec, "train-user-subclass/" + mname, "seed=%d" % sd, train_sub, theta_fp, dict(w, subclass_draws_through="self.rng"), inj_every=97, case_key=("train-sub", mname, sd, nch, ch, kit.array_hash(screen.observations)), count_as="training_pairs_user_subclass")
 
             w2 = dict(w, n_burnin=nb, same_model_object=True)
             pair(rec, "train-same-model/" + mname, "seed=%d" % sd, train_again, theta_fp, w2, inj_every=97, case_key=("train-again", mname, sd, nch, ch, nb, kit.array_hash(screen.observations)), count_as="training_pairs_same_model")
